@@ -1,4 +1,6 @@
 """C10 - fast modal sums equal explicit sums; least-squares fitting inverts synthesis and ignores exactly the non-finite samples."""
+import contextlib
+
 import numpy as np
 from hypothesis import strategies as st
 
@@ -362,6 +364,23 @@ def snapshot(x):
     return x if isinstance(x, float) else np.array(x, copy=True)
 
 
+@contextlib.contextmanager
+def single_session(ctx, seed):
+    """the earlier single-precision request of a 'single-first' history: as it was (single-precision data under the double-precision configuration),
+    or as the start of a session - every memo of the polynomial modules cold and prysm.conf.config.precision = 32 while the request runs"""
+    how = seed % 3
+    if how == 0:
+        yield
+        return
+    if how == 2:
+        U.cold_start()
+        ctx.label('history:cold-caches')
+    ctx.label('history:single-precision-configuration')
+    with U.precision(32):
+        yield
+
+
+
 # ---- sum_of_2d_modes -------------------------------------------------------------------------------
 # The unchanged sum_of_2d_modes casts the weights to the dtype of the modes: integer / boolean modes (segment masks, index ramps) truncate
 # them, real modes discard the imaginary part of complex weights.  Repair: fixes/C10/05-sum-of-2d-modes-weights-cast.patch.  The two input
@@ -574,7 +593,8 @@ def check_jacobi(case, ctx):
         return _call(ctx, cls, P.jacobi_sum_clenshaw, NAMES['jacobi_sum_clenshaw'], (sarg, aa, bb, xx), kw)
 
     if history == 'single-first':
-        fast(arg, a_arg, b_arg, as_single(x, case['x'], case['seed'], -1.0, 1.0, 2, xdtype, layout))
+        with single_session(ctx, case['seed']):
+            fast(arg, a_arg, b_arg, as_single(x, case['x'], case['seed'], -1.0, 1.0, 2, xdtype, layout))
     elif history == 'other-ab':
         fast(arg, a_arg + 1, b_arg + 0.5, x)
     elif history == 'failed-call':
@@ -685,7 +705,8 @@ def check_q1d(case, ctx):
 
     if history == 'single-first':
         u32 = as_single(u, case['u'], case['seed'], 0.0, 1.0, 2, 'float32', layout)
-        fast(fn, arg, u32, u32 * u32)
+        with single_session(ctx, case['seed']):
+            fast(fn, arg, u32, u32 * u32)
     elif history == 'other-fn':
         fast('compute_z_zprime_Qbfs' if fn != 'compute_z_zprime_Qbfs' else 'clenshaw_qbfs', arg, u, usq)
     u_before, usq_before = snapshot(u), snapshot(usq)
@@ -1140,8 +1161,9 @@ def check_q2d_direct(case, ctx):
         # the two outer iterables of one call (new one-shot objects every time; the vectors inside are the same objects throughout)
         return outer_arg(a_ams, outer_as), outer_arg(a_bms, outer_as)
     if history == 'single-first':
-        _guard(ctx, cls, Q.compute_z_zprime_Q2d, a_cm0, *tabs(), as_single(u, case['pts'], case['seed'], 0.0, 1.0, 2, 'float32', layout),
-               as_single(t, case['pts'], case['seed'], 0.0, 2 * np.pi, 3, 'float32', layout))
+        with single_session(ctx, case['seed']):
+            _guard(ctx, cls, Q.compute_z_zprime_Q2d, a_cm0, *tabs(), as_single(u, case['pts'], case['seed'], 0.0, 1.0, 2, 'float32', layout),
+                   as_single(t, case['pts'], case['seed'], 0.0, 2 * np.pi, 3, 'float32', layout))
     elif history == 'other-coefs':
         _guard(ctx, cls, Q.compute_z_zprime_Q2d, None if cm0 is None else wrap([2 * v for v in cm0]), [wrap(v[::-1]) for v in ams], [wrap(v[::-1]) for v in bms], u, t)
     u_before, t_before = snapshot(u), snapshot(t)
